@@ -2,3 +2,5 @@ import RosedVerif.Gem.Ranges
 import RosedVerif.Gem.Cls
 import RosedVerif.Gem.Concrete
 import RosedVerif.Gem.TableProofs
+import RosedVerif.Gem.Rules
+import RosedVerif.Gem.RulesLemmas
